@@ -1460,8 +1460,10 @@ class Context:
                 vm.nested = True
                 outer = ctx._current_vm
                 if outer is not None:
-                    # One evaluation, one budget of host recursion
+                    # One evaluation, one budget of host recursion, one poll
+                    # cadence for the deadline
                     vm.native_depth = outer.native_depth
+                    vm.instruction_count = outer.instruction_count
                 vm.enter_native(2)
                 ctx._current_vm = vm  # natives called by the eval'd code use it
                 try:
